@@ -303,6 +303,8 @@ func runC09(c *Ctx) {
 						}
 						if !quick {
 							depth = 4
+						} else if kind == "default" && hi == 5 && wi == 2 && cur == "end" && mode == "emacs" {
+							depth = 4 // C-r, p, Backspace, Enter: a search text typed and erased again
 						} else if kind == "default" && ((hi == 3 || hi == 5) && (wi == 1 || wi == 2) || hi == 1 && wi == 0) {
 							depth = 3 // (one-entry history: C-s, a, ESC)
 						} else if kind != "default" && !(hi == 3 && wi == 1) && !(hi == 5 && wi == 2) && !(hi == 1 && wi == 0) {
